@@ -135,6 +135,7 @@ struct HashWorld : World {
             }
             if (api == 2 && kp && (is_str || !sp)) {
                 int64_t n; { InSut s; n = t->getint(t, kp); }
+                if (n == 0 && sim_fault_fired() > 0) return R_fail("int:0");    // 0 is getint's documented failure value
                 return R_ok("int:" + num((long long)n));
             }
             if (api == 1 && is_str) {
